@@ -8,31 +8,31 @@ PBT = "property-based testing (proptest, tape-driven program generator) against 
 CHECKS = {
  "C01": dict(
     technique=PBT + "a reference interpreter (differential oracle)",
-    text="Generated programs (intent-typed, well-scoped, terminating by construction) are run through the real lexer/parser/resolver/runtime and compared value-by-value and ending-by-ending with an independent reference interpreter written from the documentation; unspecified zones are never asserted. Held on everything generated; no claim about programs the generator cannot write.",
+    text="Generated programs (intent-typed, well-scoped, terminating by construction) are run through the real lexer/parser/resolver/runtime and compared value-by-value and ending-by-ending with an independent reference interpreter written from the documentation; unspecified zones are never asserted; an implementation run that does more than ten times the reference interpreter's step count (deterministic hook counter) is reported as not stopping. Held on everything generated; no claim about programs the generator cannot write.",
     note="Trusts the reference interpreter and reference static checker in harness/src/nsgen (restatement of docs/*.md), Rust's float formatting/parsing, and the fork-isolation layer."),
  "C02": dict(
     technique=PBT + "a reclamation-off run of the same program (differential oracle), debug build with poisoning",
-    text="Each generated program is run with frame arena + string pool (reclamation on) and with a single arena (nothing reset or recycled); outputs and endings must agree and no crash may appear only with reclamation on. Hook counters measure that frame resets, pool returns and promotions really happened.",
+    text="Each generated program is run with frame arena + string pool (reclamation on) and with a single arena (nothing reset or recycled); outputs and endings must agree and no crash may appear only with reclamation on. Hook counters measure that frame resets, pool returns and promotions really happened; a run with reclamation on that does more than twice the work of its baseline (deterministic statement + iteration count) has stopped following the program. A second stage passes process command builders through loops and function parameters and judges the argv/env/cwd/stdin a helper child receives with the C15 contract model.",
     note="A stale read is only visible when stale bytes reach an output, a condition or a trap; poisoning (debug assertions) and observation epilogues raise the odds."),
  "C03": dict(
     technique=PBT + "the unpruned run of the same program (differential oracle) + executed-statement log vs recomputed reachability",
-    text="Each generated program is run with and without the resolver's optimisation plan on the same AST and facts; printed values and ending must be identical, and no statement the analysis calls unreachable may execute when nothing is pruned. Hook counters measure that the plan was non-empty and actually skipped something.",
+    text="Each generated program is run with and without the resolver's optimisation plan on the same AST and facts; printed values and ending must be identical, and no statement the analysis calls unreachable may execute when nothing is pruned; a program that ends when every statement is executed but does more than twice that work with the plan is reported as not stopping. Hook counters measure that the plan was non-empty and actually skipped something.",
     note="Runs ending in resource exhaustion are not compared; non-termination changes are out of reach."),
  "C04": dict(
     technique=PBT + "a reference interpreter with lexical environments; site-tagged literals",
-    text="Programs built from a three-name pool with deep nesting, shadowing, redeclaration, recursion, mutual recursion, captures and forward calls are compared with a reference interpreter that resolves names lexically; literals encode their creation site so a wrong binding changes the output.",
+    text="Programs built from a three-name pool with deep nesting, shadowing, redeclaration, recursion, mutual recursion, captures and forward calls are compared with a reference interpreter that resolves names lexically; literals encode their creation site so a wrong binding changes the output. Generated statements declare a local namesake of a variable that a callable function writes, call it and print the namesake; a scope-arrays stage does the same with nested arrays changed through paths.",
     note="Trusts the reference resolver/interpreter; programs that use a variable before its declaration executed (no documented meaning) are excluded by construction."),
  "C05": dict(
     technique=PBT + "a reference interpreter with by-value arrays; full dumps after every mutation (model-based history testing)",
-    text="Histories of copy / nested-index write / push / pop / reverse / call / return over arrays, written as programs that dump all visible arrays after every mutation, are compared with a reference interpreter in which arrays are plain vectors copied on every read.",
+    text="Histories of copy / nested-index write / push / pop / reverse / call / return over arrays, written as programs that dump all visible arrays after every mutation, are compared with a reference interpreter in which arrays are plain vectors copied on every read; an extra stage mixes this with the three-name scope profile (captured arrays changed through paths while a namesake is live in the caller).",
     note="Trusts the reference interpreter; array -> text conversion is unspecified and not asserted (values are compared structurally)."),
  "C06": dict(
     technique="bounded-exhaustive enumeration (sink x runtime type x route grid) + proptest compositions; crash oracle in an isolated child",
-    text="Every combination of 88 sinks, 7 runtime types and 9 dynamic routes (plus special shapes) is generated; every program the static checker accepts must end normally or with a runtime diagnostic in the debug-assertion build. Random compositions of grid fragments inside loops, functions and branches extend it.",
+    text="Every combination of 88 sinks, 19 runtime values (the 7 runtime types plus extreme, fractional, negative, zero and NaN numbers, empty and multi-byte strings, empty and nested arrays) and 9 dynamic routes (plus special shapes) is generated; every program the static checker accepts must end normally or with a runtime diagnostic in the debug-assertion build. Random compositions of grid fragments inside loops, functions and branches extend it.",
     note="Only the routes and sinks in the tables of harness/src/c06.rs; process_result values need `true` to be spawnable."),
  "C08": dict(
     technique="generated recursion shapes x depth x build driven through the real naija binaries (subprocess fuzzing) with depth bisection",
-    text="Run-time recursion cycles, source-nesting shapes and run-time data nesting are generated at depths 10^2..10^6 and run through the dev and release binaries with an 8 MiB stack; the process must exit by itself with a diagnostic, never die by a signal. Front-end native overflows are recorded as known findings per construct and build; any run-time-stage crash or new construct is a violation.",
+    text="Run-time recursion cycles, source-nesting shapes and run-time data nesting are generated at depths 10^2..10^6 and run through the dev and release binaries with an 8 MiB stack; the process must exit by itself with a diagnostic, never die by a signal, and a recursion without a base case must never end with exit status 0. Front-end native overflows are recorded as known findings per construct and build; any run-time-stage crash or new construct is a violation.",
     note="Depends on the two compiler profiles built here; arena exhaustion and watchdog hits are inconclusive."),
  "C11": dict(
     technique="stateful model-based property testing (proptest op histories against a shadow model with byte patterns)",
@@ -63,7 +63,7 @@ CHECKS.update({
     note="Generated programs: type errors are only asserted on literal/declared types; typing table: a null or dynamically typed operand excuses nothing; U6/U10 zones are not asserted; method arity on receivers the reference cannot type is not asserted; trusts harness/src/nsgen/resolve.rs."),
  "C10": dict(
     technique="metamorphic property-based testing (one token sequence, six generated layouts + redundant parentheses)",
-    text="Each generated program (accepted or statically rejected) is rendered from its token list as canonical text, one line, one token per line, random separators (space/tab/LF/CR/CRLF), with `#` comments after any token, and padded; the implementation's own lexer must return the same tokens for all, and acceptance, diagnostics multiset, printed values and ending must equal the canonical rendering. A parenthesised variant must behave identically.",
+    text="Each generated program (accepted or statically rejected) is rendered from its token list as canonical text, one line, one token per line, random separators (space/tab/LF/CR/CRLF), with `#` comments after any token, and padded - in half of the cases after renaming the declared identifiers to keyword-like names (`small`, `to`, `say`, `so`, `if`, `passes`, `tosay`, ...) -; the implementation's own lexer must return the same tokens for all, and acceptance, diagnostics multiset, printed values and ending must equal the canonical rendering. A parenthesised variant must behave identically.",
     note="Whitespace kinds limited to those the property names; comments never inside a multi-word keyword."),
  "C14": dict(
     technique="differential property-based testing: real binaries (3 input routes, dev+release) vs library pipeline with separate arenas; history testing through the playground entry point derived from wasm/src/lib.rs",
@@ -71,7 +71,7 @@ CHECKS.update({
     note="The playground entry is derived at build time from wasm/src/lib.rs (wasm attributes stripped, HTML conversion = identity); if the derivation no longer applies the check exits 2."),
  "C15": dict(
     technique="property-based testing of generated builder scripts x host policies against an independent contract model; reporting helper child as spawn marker",
-    text="Generated scripts build commands with adversarial arguments, environment overrides, cwd, stdin text and timeouts under generated host policies and small limits; a helper child reports the argv, environment, cwd and stdin it actually received. Either the command is refused with the documented runtime error and no child was spawned (exactly when the contract model says so), or the report equals the model byte for byte.",
+    text="Generated scripts build commands with adversarial arguments, environment overrides, cwd, stdin text and timeouts under generated host policies and small limits, as straight-line code, spread over loop iterations, or on parameters inside a function; a helper child reports the argv, environment, cwd and stdin it actually received. Either the command is refused with the documented runtime error and no child was spawned (exactly when the contract model says so), or the report equals the model byte for byte.",
     note="Needs process spawning in the sandbox; env-pair counting cases the documentation leaves open are discarded."),
  "C16": dict(
     technique="property-based testing of generated emission plans x capture policies x caps x poll intervals (sampled schedules) against a plan-derived expectation",
